@@ -77,8 +77,8 @@ N_CACHE_SHARDS = 2
 
 
 def shards(tier, seed):
-    n_elev = 40 if tier == "quick" else 450
-    n_cache = 8 if tier == "quick" else 80
+    n_elev = 40 if tier == "quick" else 900
+    n_cache = 8 if tier == "quick" else 160
     out = []
     for i in range(N_ELEV_SHARDS):
         out.append({"kind": "elev", "seed": seed, "shard": i, "n": n_elev})
